@@ -8,3 +8,25 @@ Print Assumptions C06_truncation.
 (* the same through Read with any buffer size, by C02_read_eq_writeto *)
 Theorem C06_read : reader_read_eq_writeto_stmt.  Proof. exact reader_read_eq_writeto. Qed.
 Print Assumptions C06_read.
+
+(* ---- legacy frames (no end mark): every cut that is not exactly on a block boundary ---- *)
+From LZ4V Require Import LegacySpec LegacyProofs LegacyTruncSpec LegacyTruncProofs.
+(* for every legacy session (unambiguous in the sense of C02_legacy_roundtrip) and every cut that is not
+   a block boundary: WriteTo ends with an error that is neither nil nor io.EOF after a prefix ... *)
+Theorem C06_legacy_truncation : legacy_truncation_stmt.  Proof. exact legacy_truncation. Qed.
+Print Assumptions C06_legacy_truncation.
+(* ... more precisely io.ErrUnexpectedEOF after exactly the complete blocks, Reader in the error state *)
+Theorem C06_legacy_truncation_exact : legacy_truncation_exact_stmt.  Proof. exact legacy_truncation_exact. Qed.
+Print Assumptions C06_legacy_truncation_exact.
+(* the same through Read with any buffer size *)
+Theorem C06_legacy_truncation_read : legacy_truncation_read_stmt.  Proof. exact legacy_truncation_read. Qed.
+Print Assumptions C06_legacy_truncation_read.
+(* the exclusion is exact: a cut ON a block boundary is a clean end after the complete blocks *)
+Theorem C06_legacy_cut_on_boundary : legacy_cut_on_boundary_stmt.  Proof. exact legacy_cut_on_boundary. Qed.
+Print Assumptions C06_legacy_cut_on_boundary.
+Theorem C06_legacy_truncation_iff : legacy_truncation_iff_stmt.  Proof. exact legacy_truncation_iff. Qed.
+Print Assumptions C06_legacy_truncation_iff.
+(* without the side condition the statement is false (finding F28 again: a size word taken for the
+   kernel trailer hides the cut) *)
+Theorem C06_legacy_truncation_needs_unambiguous : ~ legacy_truncation_naive_stmt.  Proof. exact legacy_truncation_needs_unambiguous. Qed.
+Print Assumptions C06_legacy_truncation_needs_unambiguous.
